@@ -153,7 +153,7 @@ theorem armsTyped_ne_malformed (kvs : Kvs) (sg : JT → Bool) (u o : Bool) : arm
   obtain ⟨ga, hga, he⟩ := ht
   have hmem := List.mem_of_find?_eq_some hga
   injection he with he
-  simp only [typedArms, List.mem_cons, List.not_mem_nil, or_false] at hmem
+  simp only [typedArms, typedArmsG, List.mem_cons, List.not_mem_nil, or_false] at hmem
   rcases hmem with rfl | rfl | rfl | rfl | rfl | rfl | rfl | rfl | rfl | rfl | rfl | rfl | rfl | rfl | rfl | rfl | rfl | rfl | rfl | rfl
     <;> first | (cases he; done) | exact soleArm_ne_malformed _ he
 
